@@ -183,6 +183,21 @@ func withCanary(x []byte) []byte {
 	return b
 }
 
+// withCanaryAt is withCanary for a buffer that does not start at the beginning of
+// its allocation: the caller hands in buf[off:off+len(x)] of something bigger (the
+// payload behind a frame header), so the slice's first byte sits at an address
+// that is off bytes past an aligned one.
+func withCanaryAt(x []byte, off int) []byte {
+	spare := spareFor(len(x))
+	raw := make([]byte, off+len(x), off+len(x)+len(spare))
+	for i := 0; i < off; i++ {
+		raw[i] = canary
+	}
+	copy(raw[off:], x)
+	copy(raw[off+len(x):cap(raw)], spare)
+	return raw[off:]
+}
+
 func spareFor(n int) []byte {
 	t := inputs.Tails[1+n%(len(inputs.Tails)-1)]
 	spare := make([]byte, 0, len(t)+24)
@@ -494,13 +509,14 @@ func (w *World) exec(t *core.Task, ti, oi int) {
 		case op.Reuse:
 			// a caller that reads successive inputs into one buffer: same address, new content
 			a := &w.arenas[ti]
-			if cap(a.buf) < len(x)+64 {
+			if cap(a.buf) < len(x)+72 {
 				a.buf = make([]byte, 0, len(x)+4096)
 			}
-			buf = a.buf[:len(x)]
+			off := (len(x) + oi) % 8 // the slice starts anywhere in the caller's buffer
+			buf = a.buf[off : off+len(x)]
 			copy(buf, x)
 		default:
-			buf = withCanary(x)
+			buf = withCanaryAt(x, (len(x)+oi+ti)%8)
 		}
 		t.OpInvoke(oi, tag)
 		m := mimetype.Detect(buf)
